@@ -283,6 +283,11 @@ func (x *Exec) runUnit(recvList *ast.FieldList, ftype *ast.FuncType, body *ast.B
 			x.oblige(fr.entry, "assert-anchor-missing:"+anchor, "assert", "false", body)
 		}
 	}
+	// an assert that names a parameter the body reassigns reads the new value
+	// (see paramguard.go): it must use old(param)
+	for _, ap := range reassignedParamsInAsserts(body, x.info(), fr.paramObjs, ct) {
+		x.oblige(fr.entry, "assert-names-reassigned-parameter:"+ap, "assert", "false", body)
+	}
 }
 
 // frameObligations: heap fields and ghosts changed by the body must be covered
